@@ -160,3 +160,41 @@ Proof.
   - intros u v o I. unfold dec_side in I; cbn [gedges] in I. apply in_flat_map in I. destruct I as ([[u' v'] x] & Ix & I').
     destruct (0 <? eG x) eqn:E; [|destruct I']. destruct I' as [I'|[]]. inversion I'; subst. exists x. split; [exact Ix|]. split; [reflexivity|apply Z.ltb_lt; exact E].
 Qed.
+
+(** * the premise [separating] for the identity, as the boolean the correspondence evaluates on every case *)
+From SK Require Import proof.C06_Comps.
+Lemma same_compb_spec (g : C06_Model.graph) x y : gwf g -> In x (node_ids g) -> (same_compb g x y = true <-> gconn g x y).
+Proof.
+  intros Hg Ix. unfold same_compb, same_in. rewrite existsb_exists. split.
+  - intros (c & Ic & E). apply andb_prop in E. destruct E as [E1 E2]. apply mem_spec in E1. apply mem_spec in E2.
+    destruct (comps_class g Hg c Ic) as (_ & _ & _ & Hc). exact (proj1 (Hc x y E1) E2).
+  - intros Hxy. destruct (comps_cover g Hg x Ix) as (c & Ic & Ixc). exists c. split; [exact Ic|].
+    destruct (comps_class g Hg c Ic) as (_ & _ & _ & Hc). apply andb_true_intro. split; apply mem_spec; [exact Ixc|exact (proj2 (Hc x y Ixc) Hxy)].
+Qed.
+Lemma same_in_cut (cs : list (list N)) (ps : list N) x y : In x ps -> In y ps ->
+  same_in (filter (fun c => match c with [] => false | _ => true end) (map (filter (fun z => mem z ps)) cs)) x y = same_in cs x y.
+Proof.
+  intros Ix Iy. unfold same_in. induction cs as [|c r IH]; [reflexivity|]. cbn [map filter existsb].
+  assert (E : mem x (filter (fun z => mem z ps) c) && mem y (filter (fun z => mem z ps) c) = mem x c && mem y c).
+  { assert (K : forall z, In z ps -> mem z (filter (fun w => mem w ps) c) = mem z c).
+    { intros z Iz. destruct (mem z c) eqn:E1.
+      - apply mem_spec. apply filter_In. split; [apply mem_spec; exact E1|apply mem_spec; exact Iz].
+      - destruct (mem z (filter (fun w => mem w ps) c)) eqn:E2; [|reflexivity]. apply mem_spec in E2. apply filter_In in E2.
+        destruct E2 as [E2 _]. apply mem_spec in E2. congruence. }
+    rewrite (K x Ix), (K y Iy). reflexivity. }
+  destruct (filter (fun z => mem z ps) c) as [|z0 zs] eqn:Ef.
+  - rewrite <- IH. simpl in E. rewrite <- E. reflexivity.
+  - cbn [existsb]. rewrite E, IH. reflexivity.
+Qed.
+Theorem id_separatingb_sound (H P : C06_Model.graph) : gwf H -> gwf P -> incl (node_ids P) (node_ids H) ->
+  id_separatingb H P = true -> separating H P (id_map (node_ids P)).
+Proof.
+  intros HH HP Hinc Hb p h p' h' I I' Hc.
+  assert (K : forall q k, In (q, k) (id_map (node_ids P)) -> k = q /\ In q (node_ids P)).
+  { intros q k J. unfold id_map in J. apply in_map_iff in J. destruct J as (n & E & In_). inversion E; subst. auto. }
+  destruct (K p h I) as [-> Ip]. destruct (K p' h' I') as [-> Ip'].
+  unfold id_separatingb in Hb. cbv zeta in Hb. rewrite forallb_forall in Hb. specialize (Hb p Ip). rewrite forallb_forall in Hb. specialize (Hb p' Ip').
+  rewrite (same_in_cut (comps H) (node_ids P) p p' Ip Ip') in Hb.
+  apply (same_compb_spec P p p' HP Ip). apply (proj2 (same_compb_spec H p p' HH (Hinc p Ip))) in Hc.
+  unfold same_compb in Hc |- *. rewrite Hc in Hb. exact Hb.
+Qed.
